@@ -85,7 +85,25 @@ class Bus:
         return self.d.stop()
 
 
-def build_msg(ev, uniq):
+def close_groups(events):
+    """[(i, j, k)]: events[i:j] are sends by connection k and events[j] is `D.k` (a burst that is written in one piece and
+    followed at once by close() in 'close' mode); maximal runs"""
+    out, i = [], 0
+    while i < len(events):
+        f = events[i].split(".")
+        if f[0] == "S":
+            j = i
+            while j < len(events) and events[j].split(".")[0] == "S" and events[j].split(".")[1] == f[1]:
+                j += 1
+            if j < len(events) and events[j] == "D." + f[1] and j > i:
+                out.append((i, j, int(f[1])))
+            i = j if j > i else i + 1
+        else:
+            i += 1
+    return out
+
+
+def build_msg(ev, uniq, pad=0):
     """ev = fields of an S event: [c, type, noreply, noauto, serial, rserial, dest, nfds, token]"""
     c, ty, nr, na, ser, rser, dst, nfds, token = ev
     nfds = int(nfds)
@@ -104,7 +122,7 @@ def build_msg(ev, uniq):
     if nfds:
         f[F_UNIX_FDS] = nfds
     flags = (1 if nr == "1" else 0) | (2 if na == "1" else 0)
-    return Msg(mt, flags, int(ser), f, "us" + "h" * nfds, (int(token), "payload-%s" % token) + tuple(range(nfds)))
+    return Msg(mt, flags, int(ser), f, "us" + "h" * nfds, (int(token), "payload-%s" % token + "x" * pad) + tuple(range(nfds)))
 
 
 def rule_text(f, uniq):
@@ -140,6 +158,11 @@ def same_message(sent, got, sender_unique):
 
 def run_history(bus, events, pipeline=False):
     """returns (tokens, notes).  notes: dict(intact_bad=[...], drift_ms=float, fifo_bad=[...]).
+    pipeline="close": a run of sends by one connection that is directly followed by that connection's disconnect is written
+    with ONE sendall() and the socket is closed at once (fire and forget; bodies are padded so that the burst is tens of kB);
+    the bus must still process everything that was written: the observer waits for the sender's NameOwnerChanged, then every
+    live client is drained behind a round trip; forwards are attributed to the sends by body token, NoReply errors to the
+    disconnect step; what the bus addressed to the closed sender itself cannot be observed.
     pipeline=True: maximal runs of consecutive sends by one connection (distinct serials) are written back to back
     without waiting; the outputs are attributed to the individual sends afterwards (forward: by body token, error: by
     reply serial) and the arrival order at each recipient must follow the order of writing (per-sender FIFO)."""
@@ -147,7 +170,9 @@ def run_history(bus, events, pipeline=False):
     sent = {}
     nextid = 0
     toks = []
-    notes = {"intact_bad": [], "drift_ms": 0.0, "forwarded": 0, "fifo_bad": [], "pipelined": 0}
+    notes = {"intact_bad": [], "drift_ms": 0.0, "forwarded": 0, "fifo_bad": [], "pipelined": 0, "burst_bytes": 0}
+    pad = 330 if pipeline == "close" else 0
+    groups = {i: (j, k) for i, j, k in close_groups(events)} if pipeline == "close" else {}
     devnull = os.open("/dev/null", os.O_RDONLY)
     t_start = time.time()
     nominal = 0.0
@@ -216,13 +241,46 @@ def run_history(bus, events, pipeline=False):
             i += 1
             tok = events[i]
             f = tok.split(".")
-            if pipeline and f[0] == "S" and int(f[1]) in conns and group_end(i) > i + 1:
+            if i in groups and groups[i][1] in conns and all(e.split(".")[8] == "0" for e in events[i:groups[i][0]]):
+                j, k = groups[i]
+                by_token, data = {}, b""
+                for n in range(i, j):
+                    g = events[n].split(".")
+                    m = build_msg(g[1:], uniq, pad)
+                    sent[int(g[9])] = (k, m)
+                    by_token[g[9]] = n
+                    data += m.encode()
+                notes["burst_bytes"] += len(data)
+                conns[k].sock.sendall(data)
+                conns[k].close()
+                del conns[k]
+                if not bus.wait_gone(uniq[k]):
+                    raise IOError("bus did not notice the disconnect of %s" % uniq[k])
+                bus.obs.barrier()
+                merged = collect()
+                per_step = {n: [] for n in range(i, j + 1)}
+                last = {}
+                for x in ([] if merged == "-" else merged.split("+")):
+                    r, d = x.split(":", 1)
+                    parts = d.split(".")
+                    n = by_token.get(parts[2], j) if parts[0] == "F" else j
+                    if parts[0] == "F" and n < j:
+                        if last.get(r, -1) > n:
+                            notes["fifo_bad"].append((events[n], merged))
+                        last[r] = max(last.get(r, -1), n)
+                    per_step[n].append(x)
+                per_step[j].sort()
+                for n in range(i, j + 1):
+                    toks.append("+".join(per_step[n]) if per_step[n] else "-")
+                i = j
+                continue
+            if pipeline is True and f[0] == "S" and int(f[1]) in conns and group_end(i) > i + 1:
                 j = group_end(i)
                 k = int(f[1])
                 by_token, by_serial = {}, {}
                 for n in range(i, j):
                     g = events[n].split(".")
-                    m = build_msg(g[1:], uniq)
+                    m = build_msg(g[1:], uniq, pad)
                     sent[int(g[9])] = (k, m)
                     by_token[g[9]], by_serial[g[5]] = n, n
                     conns[k].send(m, fds=[devnull] * int(g[8]))
@@ -261,7 +319,7 @@ def run_history(bus, events, pipeline=False):
                 if k not in conns:
                     toks.append("!")
                     continue
-                m = build_msg(f[1:], uniq)
+                m = build_msg(f[1:], uniq, pad)
                 sent[int(f[9])] = (k, m)
                 conns[k].send(m, fds=[devnull] * int(f[8]))
                 toks.append(collect())
